@@ -115,10 +115,20 @@ class _World:
         self.rng = rng
         self.model = gen.build_model(cfg, rng)
         # the third pool has s-only bases (no p function anywhere): some SDMX code paths are specific to it
-        names = [["H2O", "HF"], ["LiH", "NH3"], ["H2", "He"]][int(rng.choice(3, p=[0.4, 0.35, 0.25]))]
-        self.mols = [gen.make_mol(n, cfg["basis"], rng, jitter=0.03) for n in names]
+        # the fourth pool starts with two fragments 8-11 Angstrom apart: most (grid block, shell) pairs are negligible, so the
+        # integrator takes its sparse AO-contraction path for the outer blocks and the dense one for the inner blocks
+        names = [["H2O", "HF"], ["LiH", "NH3"], ["H2", "He"], ["far:LiH+HF", "HF"]][int(rng.choice(4, p=[0.3, 0.25, 0.2, 0.25]))]
+
+        def mk(n, jit):
+            if n.startswith("far:"):
+                a, b = n[4:].split("+")
+                d = float(rng.uniform(8.0, 11.0))
+                atoms = list(gen.MOLS[a][0]) + [(s, (x + d, y + 0.7, z - 0.4)) for s, (x, y, z) in gen.MOLS[b][0]]
+                return gen.make_mol(None, cfg["basis"], rng, jitter=jit, atoms=atoms, spin=0, charge=0)
+            return gen.make_mol(n, cfg["basis"], rng, jitter=jit)
+        self.mols = [mk(n, 0.03) for n in names]
         # a second geometry of the first molecule (same formula, different coordinates)
-        self.mols.append(gen.make_mol(names[0], cfg["basis"], rng, jitter=0.08))
+        self.mols.append(mk(names[0], 0.08))
         self.ks = {}
         self.dms = {}
         self.refs = {}
